@@ -28,9 +28,14 @@ if stmt:
 wl = [l.strip() for l in open(os.path.join(src, "FcLemmas.lean")) if l.startswith("import ")]
 have = open(os.path.join(dst, "FcLemmas.lean")).read()
 with open(os.path.join(dst, "FcLemmas.lean"), "a") as f:
+    done = set()
     for l in wl:
         mod = l.split()[1].split(".")[-1] + ".lean"
         if mod in new_lemmas and l not in have:
+            f.write(l + "\n"); done.add(mod)
+    for fn in new_lemmas:            # the worker did not touch the root: the order of imports does not matter
+        l = "import FcLemmas." + fn[:-5]
+        if fn not in done and l not in have:
             f.write(l + "\n")
 have = open(os.path.join(dst, "FcProps.lean")).read()
 imp = "import FcProps." + props[:-5]
